@@ -23,6 +23,8 @@ try:
     p = subprocess.run(['diff', '-u', os.path.join('a', rel), os.path.join('b', rel)], cwd=d, capture_output=True, text=True)
     patch = os.path.join(d, 'm.diff')
     open(patch, 'w').write(p.stdout)
+    if os.environ.get('MUT_SAVE'):
+        open(os.environ['MUT_SAVE'], 'w').write(p.stdout.replace('--- a/', '--- a/').replace('+++ b/', '+++ b/'))
     r = subprocess.run([sys.executable, os.path.join(os.path.dirname(__file__), 'seedrun.py'), patch] + ids, capture_output=True, text=True)
     out = r.stdout + r.stderr
     for l in out.splitlines():
